@@ -184,6 +184,35 @@ def build_coq(timeout=3000):
     return rc == 0, out, failing
 
 
+def coq_deps(pid):
+    """transitive .v dependencies of Properties/<pid>.v inside the development (from coq_makefile's .Makefile.d)"""
+    dep = {}
+    path = os.path.join(COQ, ".Makefile.d")
+    if not os.path.exists(path):
+        return None
+    for line in open(path).read().replace("\\\n", " ").splitlines():
+        if ":" not in line:
+            continue
+        lhs, rhs = line.split(":", 1)
+        tgt = [t for t in lhs.split() if t.endswith(".vo")]
+        if not tgt:
+            continue
+        srcs = [x[:-1] if x.endswith(".vo") else x for x in rhs.split() if x.endswith(".vo") or x.endswith(".v")]
+        srcs = [x for x in srcs if x.startswith("theories/")]
+        dep[tgt[0][:-1]] = set(x if x.endswith(".v") else x + "" for x in srcs)
+    start = "theories/Properties/%s.v" % pid
+    seen, todo = set(), [start]
+    while todo:
+        f = todo.pop()
+        if f in seen:
+            continue
+        seen.add(f)
+        for d in dep.get(f, ()):
+            d = d if d.endswith(".v") else d + ".v"
+            todo.append(d)
+    return seen
+
+
 def theorems_of(pid):
     p = os.path.join(COQ, "theories", "Properties", pid + ".v")
     if not os.path.exists(p):
